@@ -117,9 +117,13 @@ Definition error_page_targets (body : list directive) : list string :=
                        end
                      else []) body.
 
+(* a named location that does not exist makes NGINX answer 500 (ngx_http_named_location); a URI that
+   matches no exact location would go through location matching again, so it is not accepted *)
+Definition is_named (t : string) : bool := match t with String c _ => Ascii.eqb c "@"%char | _ => false end.
+
 Definition error_pages_ok (srv body : list directive) : bool :=
   forallb (fun t => match find_locations srv [t] with
-                    | [] => false
+                    | [] => is_named t
                     | bs => forallb (fun b => negb (has_pass b)) bs
                     end) (error_page_targets body).
 
@@ -267,3 +271,97 @@ Definition policy_unusable (cls : string) (cluster : list (string * cpolicy)) (d
 Definition scope_must_fail (cls : string) (cluster : list (string * cpolicy)) (d : deps)
            (ctx : context) (owner_ns : string) (refs : list polref) : bool :=
   existsb (policy_unusable cls cluster d ctx owner_ns) refs.
+
+(* Which unusable references are NOT preceded, in the same list, by a reference that resolves (in
+   the policy map) to a policy of the same kind?  Those are the ones the theorem
+   Policies.Proofs.scope_fails_closed_partial speaks about; the others are shadowed duplicates.
+   Result: (an unshadowed unusable reference exists, kinds of the shadowed unusable ones). *)
+Definition in_map (cls : string) (cluster : list (string * cpolicy)) (owner_ns : string) (r : polref) : option policy :=
+  match assoc (ref_key owner_ns r) cluster with
+  | Some cp => if class_ok cls cp && cp_valid cp then Some (cp_pol cp) else None
+  | None => None
+  end.
+
+Fixpoint scan_refs (cls : string) (cluster : list (string * cpolicy)) (d : deps) (ctx : context)
+         (owner_ns : string) (seen : list kind) (refs : list polref) : bool * list kind :=
+  match refs with
+  | [] => (false, [])
+  | r :: rest =>
+      match in_map cls cluster owner_ns r with
+      | None => (true, snd (scan_refs cls cluster d ctx owner_ns seen rest))
+      | Some p =>
+          let '(u, ks) := scan_refs cls cluster d ctx owner_ns (pkind p :: seen) rest in
+          let bad := deps_bad p (ref_ns owner_ns r) d ctx in
+          let sh := existsb (kind_eqb (pkind p)) seen in
+          (u || (bad && negb sh), if bad && sh then pkind p :: ks else ks)
+      end
+  end.
+
+Definition kind_code (k : kind) : nat :=
+  match k with
+  | KAccess => 1 | KRate => 2 | KJwt => 3 | KBasic => 4 | KIngressMTLS => 5 | KEgressMTLS => 6
+  | KOidc => 7 | KApiKey => 8 | KWaf => 9 | KNone => 10
+  end.
+
+(* the scopes of a VirtualServer in generation order, with the references that apply *)
+Definition own_route_scopes (v : vserver) : list (string * context * string * list polref) :=
+  flat_map (fun r => if is_empty (r_vsr r)
+                     then [(String.append "route:" (r_path r), CRoute, vs_ns v, r_pols r)] else []) (vs_routes v).
+
+Definition sub_scopes (v : vserver) : list (string * context * string * list polref) :=
+  flat_map (fun x =>
+    let key := nskey (v_ns x) (v_name x) in
+    map (fun s =>
+           let id := String.append "sub:" (String.append key (String.append ":" (s_path s))) in
+           match s_pols s with
+           | [] => (id, CRoute, vs_ns v, inherited_refs (vs_ns v) (vs_routes v) key [])
+           | _ => (id, CSubroute, v_ns x, s_pols s)
+           end) (v_subs x)) (vs_vsrs v).
+
+Definition vs_scopes (v : vserver) : list (string * context * string * list polref) :=
+  ("spec", CSpec, vs_ns v, vs_pols v) :: own_route_scopes v ++ sub_scopes v.
+
+
+(* ---------------------------------------------------------------- declarative notions used by the theorems *)
+
+(* the policy a reference resolves to cannot be used in this scope: a dependency is missing /
+   invalid / of the wrong type or the policy is not allowed in the context; for OIDC, when the
+   VirtualServer already holds an OIDC configuration, the question is whether it is another one *)
+Definition policy_unusable_here (p : policy) (key polns : string) (d : deps) (sc : scope) : Prop :=
+  match pkind p with
+  | KOidc => match sc_oidc sc with
+             | None => deps_bad p polns d (sc_ctx sc) = true
+             | Some k => k <> key
+             end
+  | _ => deps_bad p polns d (sc_ctx sc) = true
+  end.
+
+(* the reference is unusable: it does not resolve in the policy map (missing / foreign class /
+   invalid: dropped by getPolicies), or it resolves to a policy that is unusable here *)
+Definition ref_unusable (pm : policy_map) (d : deps) (sc : scope) (r : polref) : Prop :=
+  match assoc (ref_key (sc_owner_ns sc) r) pm with
+  | None => True
+  | Some p => policy_unusable_here p (ref_key (sc_owner_ns sc) r) (ref_ns (sc_owner_ns sc) r) d sc
+  end.
+
+(* an earlier reference of the same list resolves to a policy of the same kind *)
+Definition shadowed (pm : policy_map) (owner_ns : string) (pre : list polref) (r : polref) : Prop :=
+  exists r' p' p, In r' pre /\ assoc (ref_key owner_ns r') pm = Some p' /\
+                  assoc (ref_key owner_ns r) pm = Some p /\ pkind p' = pkind p.
+
+(* the policy map only holds what getPolicies lets through *)
+Definition pm_sound (cls : string) (cluster : list (string * cpolicy)) (pm : policy_map) : Prop :=
+  forall k p, assoc k pm = Some p ->
+    exists cp, assoc k cluster = Some cp /\ class_ok cls cp = true /\ cp_valid cp = true /\ cp_pol cp = p.
+
+(* the template site  {{ with PoliciesErrorReturn }} return {{ .Code }}; {{ end }} *)
+Definition render_error_return (v : view) : list directive :=
+  if lv_err v then [Dir "return" ["500"] None] else [].
+
+(* directives that may precede the return without changing what it does *)
+Definition harmless (d : directive) : bool :=
+  match dbody d with
+  | None => negb (String.eqb (dname d) "return" || String.eqb (dname d) "rewrite" ||
+                  String.eqb (dname d) "break" || is_pass d)
+  | Some _ => negb (String.eqb (dname d) "if")
+  end.
